@@ -887,13 +887,13 @@ func signerClass(m *model, e event) string {
 		if c == t {
 			continue
 		}
+		if n := len(m.versions[c]); n > 0 && inList(m.versions[c][n-1].Doc.CapInv, e.SignKey) && !m.versions[c][n-1].deactivated() && !m.active(c, 1) {
+			return "key-of-controller-without-active-controller"
+		}
 		for k, w := range m.versions[c] {
 			if inList(w.Doc.CapInv, e.SignKey) {
 				if m.versions[c][len(m.versions[c])-1].deactivated() {
 					return "key-of-deactivated-controller"
-				}
-				if k == len(m.versions[c])-1 && !m.active(c, 1) {
-					return "key-of-controller-without-active-controller"
 				}
 				if k < len(m.versions[c])-1 {
 					return "removed-key-of-controller"
